@@ -144,12 +144,13 @@ pub fn append_rule(rule: Arc<Rule>) -> bool {
         .filter(|r| r.is_valid().is_ok())
         .cloned()
         .collect();
+    // hold `CONTROLLER_MAP` from taking the reusable controllers out of the old list until the
+    // rebuilt list is in place: an entry checked in between would find the active rules gone
+    let mut controller_map = CONTROLLER_MAP.write().unwrap();
     let new_tcs_of_res = build_resource_traffic_shaping_controller(
         &rule.resource,
         &valid_rules_of_res,
-        CONTROLLER_MAP
-            .write()
-            .unwrap()
+        controller_map
             .get_mut(&rule.resource)
             .unwrap_or(&mut placeholder),
     );
@@ -157,10 +158,7 @@ pub fn append_rule(rule: Arc<Rule>) -> bool {
     if !new_tcs_of_res.is_empty() {
         // the rebuilt list carries over the controllers of the rules that were already
         // active (they were taken out of the old list) plus the new one: it replaces the old list
-        CONTROLLER_MAP
-            .write()
-            .unwrap()
-            .insert(rule.resource.clone(), new_tcs_of_res);
+        controller_map.insert(rule.resource.clone(), new_tcs_of_res);
     }
     true
 }
